@@ -217,6 +217,46 @@ Proof.
       rewrite removelast_snoc. auto.
 Qed.
 
+Lemma skipn_app_exact : forall (A : Type) (a b : list A), skipn (length a) (a ++ b) = b.
+Proof. intros. rewrite skipn_app, Nat.sub_diag, skipn_all. reflexivity. Qed.
+
+(* a cue.mod-like element below the root is found by splitCUEMod with a non-empty prefix *)
+Lemma scm_finds_nested : forall cur rest k,
+  Forall pelem (cur ++ rest) -> (length cur <= k)%nat ->
+  (exists pre x suf, cur = pre ++ x :: suf /\ pre <> [] /\ ascii_eqfold x s_cue_mod = true) ->
+  exists a b, split_cue_mod_aux k (join_slash (cur ++ rest)) (join_slash cur) = (a, b) /\ a <> [] /\ b <> [].
+Proof.
+  intros cur. induction cur as [|y cur' IH] using rev_ind; intros rest k F L [pre [x [suf [E [NP EQ]]]]].
+  - destruct pre; discriminate.
+  - rewrite app_length in L. simpl in L. destruct k as [|k]; [lia|].
+    assert (Fy : pelem y).
+    { apply Forall_app in F. destruct F as [F _]. apply Forall_app in F. destruct F as [_ F]. inversion F; auto. }
+    destruct Fy as [[Yn _] Ys].
+    destruct cur' as [|c0 cur''].
+    { exfalso. destruct pre as [|p0 pre']; [congruence|]. simpl in E. inversion E. destruct pre'; discriminate. }
+    assert (NE' : c0 :: cur'' <> []) by discriminate.
+    assert (F' : Forall pelem (c0 :: cur'')).
+    { apply Forall_app in F. destruct F as [F _]. apply Forall_app in F. tauto. }
+    cbn [split_cue_mod_aux]. rewrite path_split_join by auto.
+    assert (P : join_slash (((c0 :: cur'') ++ [y]) ++ rest) = (join_slash (c0 :: cur'') ++ [c_slash]) ++ join_slash (y :: rest)).
+    { rewrite <- app_assoc. unfold join_slash. rewrite join_with_app by (try discriminate; auto).
+      rewrite <- app_assoc. reflexivity. }
+    destruct (ascii_eqfold y s_cue_mod) eqn:EY.
+    + rewrite P, firstn_app_exact, skipn_app_exact. eexists. eexists. split; [reflexivity|]. split.
+      * destruct (join_slash (c0 :: cur'')); discriminate.
+      * unfold join_slash. destruct rest; simpl; destruct y; try congruence; discriminate.
+    + rewrite trim_join_slash by auto.
+      destruct (join_slash (c0 :: cur'')) as [|j0 jt] eqn:J; [exfalso; revert J; apply join_nonempty; auto|].
+      rewrite <- app_assoc. apply IH.
+      * rewrite <- app_assoc in F. exact F.
+      * simpl in *. lia.
+      * (* the witness lies in cur' because y itself is not cue.mod-like *)
+        assert (SUF : suf <> []).
+        { intro Q. subst suf. apply app_inj_tail in E. destruct E as [_ E]. subst. congruence. }
+        destruct (exists_last SUF) as [suf' [z Ez]]. subst suf. exists pre, x, suf'. split; auto.
+        rewrite app_comm_cons, app_assoc in E. apply app_inj_tail in E. tauto.
+Qed.
+
 Section Oracle.
   Variable is_letter : N -> bool.
 
@@ -252,5 +292,19 @@ Section Oracle.
       + intros Q. specialize (A Q). destruct (split_slash p) as [|e es] eqn:SP; try congruence.
         rewrite J. rewrite cut_on_join; auto. inversion F; subst. destruct H2; auto.
       + intros NA I. rewrite J at 2. auto.
+  Qed.
+
+  Lemma checked_nested_cue_mod : forall p pre x suf, check_path is_letter p = true ->
+    split_slash p = pre ++ x :: suf -> pre <> [] -> ascii_eqfold x s_cue_mod = true ->
+    cz_cue_mod p = None.
+  Proof.
+    intros p pre x suf H SP NP EQ. destruct (checked_elems p H) as [J [NE F]].
+    pose proof (join_length_ge _ F) as L. rewrite <- J in L.
+    destruct (scm_finds_nested (split_slash p) [] (S (length p))) as [a [b [SC [NA NB]]]].
+    - rewrite app_nil_r. exact F.
+    - lia.
+    - exists pre, x, suf. auto.
+    - rewrite app_nil_r, <- J in SC. unfold cz_cue_mod, split_cue_mod. rewrite SC.
+      destruct b; [congruence|]. destruct a; [congruence|]. reflexivity.
   Qed.
 End Oracle.
